@@ -409,4 +409,90 @@ theorem compute_optimal (o : FOpts) (labels : List Label) (j : Nat) :
   · intro hne zs hz hfeas
     exact solve_optimal' Layout.eps eps_nonneg' _ _ (chain_lengths o.toR hne) (chainVars_pos o.toR _) zs hz hfeas
 
+
+/-- **C01 for several engines alive at once**: after ANY interleaving of operations on any number of engines sharing list objects and
+node objects, the layers a compute of ANY of them leaves in the node objects are separated layer by layer -/
+theorem engines_layers_separated (ops : List EngineT.MOp) (k j : Nat) :
+    sepAdjB ((EngineT.MWorld.run ops).engineAt k).opts.toR (1 + Layout.eps)
+      (obsView (EngineT.observe
+        (EngineT.computeT ((EngineT.MWorld.run ops).engineAt k) (EngineT.MWorld.run ops).store).2
+        ((EngineT.computeT ((EngineT.MWorld.run ops).engineAt k) (EngineT.MWorld.run ops).store).1.layers.getD [])) j) = true :=
+  computeT_layers_separated _ _ (C06.mworld_good ops k) ((EngineT.mworld_inv ops).datas_nodup k) j
+
+/-- … and the same of the observation the history records for that compute (payloads reported as positions in the list as created) -/
+theorem engines_report_separated (ops : List EngineT.MOp) (k : Nat) (O : List (List EngineT.ObsT))
+    (h : (EngineT.MWorld.run (ops ++ [.compute])).outs.getLast? = some (k, O))
+    (hne : (EngineT.MWorld.run ops).outs.length < (EngineT.MWorld.run (ops ++ [.compute])).outs.length) (j : Nat) :
+    sepAdjB ((EngineT.MWorld.run ops).engineAt k).opts.toR (1 + Layout.eps) (obsView O j) = true := by
+  have hrun : EngineT.MWorld.run (ops ++ [.compute]) = (EngineT.MWorld.run ops).step .compute := by
+    unfold EngineT.MWorld.run
+    rw [List.foldl_append]
+    rfl
+  rw [hrun] at h hne
+  have hw := EngineT.mworld_inv ops
+  cases he : (EngineT.MWorld.run ops).engines[(EngineT.MWorld.run ops).cur]? with
+  | none =>
+    -- no current engine: the step records nothing, contradicting `hne`
+    exfalso
+    have : (EngineT.MWorld.run ops).step .compute = EngineT.MWorld.run ops := by
+      simp only [EngineT.MWorld.step, he]
+    rw [this] at hne
+    exact Nat.lt_irrefl _ hne
+  | some e =>
+    obtain ⟨houts, -, -, -, -⟩ := EngineT.MWorld.step_compute_outs (EngineT.MWorld.run ops) e he
+    rw [houts, List.getLast?_concat, Option.some.injEq, Prod.mk.injEq] at h
+    obtain ⟨hk, hO⟩ := h
+    subst hk
+    subst hO
+    rw [obsView_relabel (fun d => List.idxOf d ((e.ref.bind (fun b => (EngineT.MWorld.run ops).created[b]?)).getD []))]
+    · exact engines_layers_separated ops _ j
+    · rw [C06.compute_after_any_interleaving]
+      have hids := compute_ids_lt ((EngineT.MWorld.run ops).engineAt (EngineT.MWorld.run ops).cur).opts
+        (EngineT.labelsOf (EngineT.MWorld.run ops).store ((EngineT.MWorld.run ops).engineAt (EngineT.MWorld.run ops).cur).nodes)
+      rw [EngineT.labelsOf_length] at hids
+      have hmem := EngineT.observePure_data_mem ((EngineT.MWorld.run ops).engineAt (EngineT.MWorld.run ops).cur).opts
+        (EngineT.labelsOf (EngineT.MWorld.run ops).store ((EngineT.MWorld.run ops).engineAt (EngineT.MWorld.run ops).cur).nodes)
+        (((EngineT.MWorld.run ops).engineAt (EngineT.MWorld.run ops).cur).nodes.map
+          (fun i => (EngineT.get (EngineT.MWorld.run ops).store i).data))
+        _ (by rw [List.length_map]; exact hids)
+      intro l hl x hx l' hl' y hy hxy
+      have hy' := hmem l' hl' y hy
+      rw [hw.datas_eq] at hy'
+      -- the engine's nodes are a reordering of the list object as created, which is the batch payloads are reported against
+      rcases hw.engine_nodes (EngineT.MWorld.run ops).cur with h0 | ⟨e', b, c, he', hr, hc, hp⟩
+      · rw [h0] at hy'; cases hy'
+      · rw [he] at he'
+        cases he'
+        have hbatch : (e.ref.bind (fun b => (EngineT.MWorld.run ops).created[b]?)).getD [] = c := by
+          rw [hr]; simp only [Option.bind_some, hc, Option.getD_some]
+        rw [hbatch] at hxy
+        exact (List.idxOf_inj (hp.subset hy')).1 hxy
+
+/-- the side condition `hne` of `engines_report_separated` (the final `.compute` recorded something, i.e. there was a current engine) is implied
+by `h`: as long as no engine exists nothing at all has been recorded, so a last observation exists only if the step recorded one -/
+theorem engines_report_separated' (ops : List EngineT.MOp) (k : Nat) (O : List (List EngineT.ObsT))
+    (h : (EngineT.MWorld.run (ops ++ [.compute])).outs.getLast? = some (k, O)) (j : Nat) :
+    sepAdjB ((EngineT.MWorld.run ops).engineAt k).opts.toR (1 + Layout.eps) (obsView O j) = true := by
+  refine engines_report_separated ops k O h ?_ j
+  have hrun : EngineT.MWorld.run (ops ++ [.compute]) = (EngineT.MWorld.run ops).step .compute := by
+    unfold EngineT.MWorld.run
+    rw [List.foldl_append]
+    rfl
+  rw [hrun] at h ⊢
+  cases he : (EngineT.MWorld.run ops).engines[(EngineT.MWorld.run ops).cur]? with
+  | none =>
+    exfalso
+    have hstep : (EngineT.MWorld.run ops).step .compute = EngineT.MWorld.run ops := by
+      simp only [EngineT.MWorld.step, he]
+    rw [hstep] at h
+    have hnil : (EngineT.MWorld.run ops).engines = [] := by
+      rcases (EngineT.mworld_inv ops).cur with hc | hc
+      · exact hc
+      · rw [List.getElem?_eq_getElem hc] at he; cases he
+    rw [EngineT.MWorld.outs_nil_of_no_engine ops hnil] at h
+    cases h
+  | some e =>
+    rw [(EngineT.MWorld.step_compute_outs (EngineT.MWorld.run ops) e he).1, List.length_append, List.length_singleton]
+    exact Nat.lt_succ_self _
+
 end Labella.C01
